@@ -77,6 +77,15 @@ def body_factory(ctx):
             prior = gens.build_prior(spec["prior"])
             smp = gens.build_samples(spec)
         rows_eff = c01.effective_rows(smp, prob.data_unit)
+        import thejoker as tj
+        with ctx.sut("marginal_ln_likelihood"):
+            probe = np.asarray(tj.TheJoker(prior).marginal_ln_likelihood(data, smp, in_memory=True), dtype=float)
+        if not np.all(np.isfinite(probe)):
+            kap = max(og.evaluate(prob, r)["kappa"] for r in rows_eff)
+            if kap > 1e14:
+                ctx.classes["numerically singular configuration (kappa>1e14): skipped"] += 1
+                return
+            raise Violation("marginal ln-likelihood is not finite for a finite valid input", values=probe[:8], kappa=kap)
         out, calls, rg, pool = run_rejection(ctx, spec, prob, data, prior, smp)
         n_lin = spec["n_linear"]
         names = linear_names(prob)
@@ -254,7 +263,7 @@ def stat_body_factory(ctx):
 @st.composite
 def cases(draw, thorough=False):
     spec = draw(gens.problems(max_surveys=4 if thorough else 3, max_epochs=30 if thorough else 8,
-                              max_poly=4 if thorough else 3, n_rows=(3, 8), allow_f4=True))
+                              max_poly=4 if thorough else 3, n_rows=(3, 8), allow_f4=True, t_ref="allow_false"))
     spec["path"] = draw(st.sampled_from(["mem", "mem", "cache", "file"]))
     spec["n_linear"] = draw(st.sampled_from([1, 1, 2, 3, 5, 16, 64]))
     spec["rng_seed"] = draw(st.integers(0, 2**32 - 1))
